@@ -73,9 +73,9 @@ pub fn unit_count(prop: &str, tier: Tier) -> u64 {
         "C05" => (40_000, 3_000_000),
         "C06" => (60_000, 2_000_000),
         "C07" => (12_000, 600_000),
-        "C08" => (8_000, 400_000),
+        "C08" => (8_000, 200_000),
         "C09" => (40_000, 1_000_000),
-        "C10" => (100_000, 6_000_000),
+        "C10" => (100_000, 2_000_000),
         "C11" => (6_000, 150_000),
         "C12" => (300_000, 20_000_000),
         "C17" => (100_000, 2_000_000),
